@@ -4,7 +4,9 @@
 package main
 
 import (
+	"bufio"
 	"bytes"
+	"testing/iotest"
 	"fmt"
 	"io"
 	"strings"
@@ -239,9 +241,9 @@ func main() {
 		if scaled {
 			sizes = []int{0, 1, C - 1, C, C + 1, 2 * C, 2*C + 1, 3 * C, 257*C + 3}
 		} else {
-			sizes = []int{0, 1, C + 1}
+			sizes = []int{0, 1, C, C + 1}
 			if c.Thorough() {
-				sizes = append(sizes, 2*C+1, C, 2*C)
+				sizes = append(sizes, 2*C+1, 2*C, C-1)
 			}
 		}
 		for _, n := range sizes {
@@ -262,9 +264,27 @@ func main() {
 				}
 				return nearSeam(off) || off%251 == 0
 			}
+			var judgeSrc func(part, id string, tampered []byte, desc string, src int)
 			judge := func(part, id string, tampered []byte, desc string) {
+				judgeSrc(part, id, tampered, desc, 0)
+				if part == "extension" || part == "truncation" && len(tampered)%7 == 0 {
+					// the same damaged file delivered through a bufio.Reader (what cmd/age passes) and byte-wise
+					judgeSrc(part, id+".bufio", tampered, desc+" [source: bufio.Reader 4096]", 1)
+					if len(tampered) < 4096 {
+						judgeSrc(part, id+".onebyte", tampered, desc+" [source: one byte per Read]", 2)
+					}
+				}
+			}
+			judgeSrc = func(part, id string, tampered []byte, desc string, src int) {
 				c.Eval(1)
-				res := lab.DecryptBytes(tampered, false, x.Id)
+				var rd io.Reader = bytes.NewReader(tampered)
+				switch src {
+				case 1:
+					rd = bufio.NewReaderSize(rd, 4096)
+				case 2:
+					rd = iotest.OneByteReader(rd)
+				}
+				res := lab.Decrypt(rd, false, 0, x.Id)
 				c.Outcome(res.Class())
 				det := map[string]interface{}{"plaintext_len": n, "mutation": desc, "result": res.Class(), "decrypt_err": lab.ErrText(res.DecryptErr), "read_err": lab.ErrText(res.ReadErr), "released": len(res.Plain)}
 				switch {
